@@ -135,4 +135,11 @@ HandlersNest == \A f \in DOMAIN fib : LET s == fib[f] IN
   /\ s.fr <= MaxFrames
 CaughtInsideLoop == \A f \in DOMAIN fib : LET s == fib[f] IN
   (s.st = "catch" /\ s.ns # <<>>) => Last(s.hs) > Last(s.ns)
+\* a search is never stuck and never has a choice: exactly one of "take the innermost handler", "leave the nested loop
+\* with the error" and "unhandled" is possible
+SearchDecided == \A f \in DOMAIN fib : fib[f].st = "search" =>
+  LET a == \E n \in 1 .. MaxFrames : GTo(f, n)
+      b == GStop(f)
+      c == GUnhandled(f)
+  IN (a \/ b \/ c) /\ ~(a /\ b) /\ ~(a /\ c) /\ ~(b /\ c)
 =============================================================================
